@@ -415,6 +415,11 @@ theorem hstep3_spec (st : HState3 K V) (hi : HInv3 st) (op : HOp K V) :
   | updateExtendAbort l =>
     obtain ⟨i, a⟩ := addAll3_spec hi.s l
     exact ⟨⟨i, hi.t⟩, by simp [hstep3, hstep, HState3.abs, a], rfl⟩
+  | updateMapAbort l =>
+    obtain ⟨s', e, i, a⟩ := setAll3_spec hi.s l
+    simp only [hstep3, hstep, e]
+    exact ⟨⟨i, hi.t⟩, by simp [HState3.abs, a], by fin⟩
+  | rejected => exact ⟨hi, rfl, rfl⟩
   | copyToT => exact ⟨⟨hi.s, (copy3_spec st.s).1⟩, by simp [hstep3, hstep, HState3.abs, (copy3_spec st.s).2], rfl⟩
   | copyToS => exact ⟨⟨(copy3_spec st.s).1, hi.t⟩, by simp [hstep3, hstep, HState3.abs, (copy3_spec st.s).2], rfl⟩
   | swap => exact ⟨⟨hi.t, hi.s⟩, rfl, rfl⟩
